@@ -1147,6 +1147,12 @@ var ruleAccounting = &core.Rule{ID: "R08.6", Min: 18,
 						a.n += k
 					}
 				}
+				// a constant, non-failure return value is consumed bytes too (a helper returning 1 for one byte)
+				if rr := retOf(b); rr != nil {
+					if k, ok := core.ConstInt(rr.Results[0]); ok && k > 0 {
+						a.n += k
+					}
+				}
 				if a.pos == token.NoPos {
 					for _, in := range b.Instrs {
 						if in.Pos().IsValid() {
